@@ -20,6 +20,7 @@ import (
 	"sort"
 	"strings"
 	"sync"
+	"syscall"
 	"time"
 
 	"github.com/diskfs/go-diskfs/backend"
@@ -594,6 +595,15 @@ func (d *Disk) LoadFrom(path string, off int64) error {
 	buf := make([]byte, 1<<20)
 	var pos int64
 	for {
+		// holes of a sparse host file are skipped (SEEK_DATA), rounded down to a page boundary
+		if np, serr := f.Seek(pos, 3); serr == nil && np > pos {
+			pos = np &^ (PageSize - 1)
+		} else if errors.Is(serr, syscall.ENXIO) {
+			break // no data at or after pos
+		}
+		if _, serr := f.Seek(pos, io.SeekStart); serr != nil {
+			return serr
+		}
 		n, err := io.ReadFull(f, buf)
 		if n > 0 {
 			for i := 0; i < n; i += PageSize {
